@@ -60,7 +60,7 @@ func c05MaxList() int {
 
 // c05Template returns one request template of the family (selector = program shape).
 func c05Template() c05Tpl {
-	shape := vrt.Choice("shape", 9)
+	shape := vrt.Choice("shape", 12)
 	n1 := 1 + vrt.Choice("len1", c05MaxList())
 	vrt.Bound("value-list-length", c05MaxList())
 	get := func(vals map[types.String]types.Value, k types.String) types.Value { return vals[k] }
@@ -123,6 +123,25 @@ func c05Template() c05Tpl {
 		t.subst = func(v map[types.String]types.Value) types.Request {
 			return types.Request{Principal: c05E, Action: c05A, Resource: c05P, Context: types.NewRecord(types.RecordMap{"a": get(v, "x"), "b": get(v, "y"), "s": types.NewSet(get(v, "y"))})}
 		}
+	case 9: // one variable in two request parts: principal and a context field
+		t.vars, t.lists = []types.String{"p"}, [][]types.Value{c05Ents(n1)}
+		t.req = Request{Principal: Variable("p"), Action: c05A, Resource: c05P, Context: types.NewRecord(types.RecordMap{"a": types.Long(1), "who": Variable("p")})}
+		t.subst = func(v map[types.String]types.Value) types.Request {
+			return types.Request{Principal: get(v, "p").(types.EntityUID), Action: c05A, Resource: c05P, Context: types.NewRecord(types.RecordMap{"a": types.Long(1), "who": get(v, "p")})}
+		}
+	case 10: // one variable in three parts: principal, resource and a set in the context
+		t.vars, t.lists = []types.String{"e"}, [][]types.Value{c05Ents(n1)}
+		t.req = Request{Principal: Variable("e"), Action: c05A, Resource: Variable("e"), Context: types.NewRecord(types.RecordMap{"a": types.Long(1), "who": Variable("e"), "s": types.NewSet(Variable("e"), types.Long(9))})}
+		t.subst = func(v map[types.String]types.Value) types.Request {
+			return types.Request{Principal: get(v, "e").(types.EntityUID), Action: c05A, Resource: get(v, "e").(types.EntityUID), Context: types.NewRecord(types.RecordMap{"a": types.Long(1), "who": get(v, "e"), "s": types.NewSet(get(v, "e"), types.Long(9))})}
+		}
+	case 11: // action and context share a variable; a second variable only in the resource
+		n2 := 1 + vrt.Choice("len2", c05MaxList())
+		t.vars, t.lists = []types.String{"act", "r"}, [][]types.Value{[]types.Value{c05A, c05B, types.NewEntityUID("Action", "third")}[:n1], c05Ents(n2)}
+		t.req = Request{Principal: c05E, Action: Variable("act"), Resource: Variable("r"), Context: types.NewRecord(types.RecordMap{"a": types.Long(1), "who": Variable("act")})}
+		t.subst = func(v map[types.String]types.Value) types.Request {
+			return types.Request{Principal: c05E, Action: get(v, "act").(types.EntityUID), Resource: get(v, "r").(types.EntityUID), Context: types.NewRecord(types.RecordMap{"a": types.Long(1), "who": get(v, "act")})}
+		}
 	}
 	t.req.Variables = Variables{}
 	for i, k := range t.vars {
@@ -140,6 +159,8 @@ func c05Policies() *cedar.PolicySet {
 	ps.Add("set-member", cedar.NewPolicyFromAST(ast.Forbid().When(ast.Context().Access("s").Contains(ast.Long(c)))))
 	ps.Add("nested", cedar.NewPolicyFromAST(ast.Permit().ResourceIn(c05P).When(ast.Context().Access("r").Access("a").Equal(ast.Long(c)))))
 	ps.Add("action", cedar.NewPolicyFromAST(ast.Forbid().ActionEq(c05B).PrincipalIn(c05P)))
+	ps.Add("who-is-principal", cedar.NewPolicyFromAST(ast.Permit().When(ast.Context().Has("who").And(ast.Context().Access("who").Equal(ast.Principal())))))
+	ps.Add("who-is-action", cedar.NewPolicyFromAST(ast.Forbid().When(ast.Context().Has("who").And(ast.Context().Access("who").Equal(ast.Action())).And(ast.Resource().Equal(ast.Value(c05X))))))
 	return ps
 }
 
